@@ -146,6 +146,10 @@ func (p *FSM) Open(_ <-chan struct{}) (uint64, error) {
 	var dbdir string
 	if rp.IsNewRun(p.fs, p.dirname) {
 		dbdir = filepath.Join(p.dirname, randomDir)
+		// The DB directory must exist durably before the current file pointing to it is published.
+		if err := p.fs.MkdirAll(dbdir, 0o755); err != nil {
+			return 0, err
+		}
 		if err := rp.SaveCurrentDBDirName(p.fs, p.dirname, randomDir); err != nil {
 			return 0, err
 		}
